@@ -1,4 +1,5 @@
 import Pendulum.Proofs.C15
+import Pendulum.Proofs.LocalTime
 /-! # C15 — calendar primitives agree with the proleptic Gregorian calendar, both backends
 
 Property theorems only. `Gen.*` are regenerated from `/repo/src/pendulum/_helpers.py`, `date.py`,
@@ -153,7 +154,46 @@ theorem rs_day_number_eq (y m d : Int) (hy : 1 ≤ y) (hm : 1 ≤ m ∧ m ≤ 12
   rw [Int.tdiv_eq_ediv_of_nonneg hy', Int.tdiv_eq_ediv_of_nonneg hy', Int.tdiv_eq_ediv_of_nonneg hy']
   rw [Int.tdiv_eq_ediv_of_nonneg (by omega)]
 
+/-! ### broken-down time of a Unix timestamp at a given offset -/
+
+/-- **`local_time`, pure-Python backend**: for every integer timestamp of either sign and every offset the result is
+    a valid civil date whose proleptic ordinal is `ordinal(1970-01-01) + ⌊(t+off)/86400⌋` and whose h:m:s is the
+    time of day `(t+off) mod 86400` (the 400/100/4/1-year chunk loops and the month walk, over the generated tables) -/
+theorem local_time_spec (t off : Int) :
+    let r := LocalTime.localTime false LocalTime.pyTbl t off
+    validDate r.1 r.2.1 r.2.2.1 ∧ ymd2ord r.1 r.2.1 r.2.2.1 = epochOrd + (t + off) / 86400 ∧
+    r.2.2.2.1 * 3600 + r.2.2.2.2.1 * 60 + r.2.2.2.2.2 = (t + off) % 86400 ∧
+    0 ≤ r.2.2.2.1 ∧ r.2.2.2.1 < 24 ∧ 0 ≤ r.2.2.2.2.1 ∧ r.2.2.2.2.1 < 60 ∧ 0 ≤ r.2.2.2.2.2 ∧ r.2.2.2.2.2 < 60 :=
+  LocalTime.localTime_py_spec t off
+
+/-- the civil date is *the* date with that ordinal (uniqueness from injectivity of `ymd2ord`) -/
+theorem local_time_date (t off : Int) :
+    let r := LocalTime.localTime false LocalTime.pyTbl t off
+    (r.1, r.2.1, r.2.2.1) = ord2ymd (epochOrd + (t + off) / 86400) := by
+  have h := LocalTime.localTime_py_spec t off
+  simp only [] at h ⊢
+  obtain ⟨hv, ho, _⟩ := h
+  rw [← ho, ord2ymd_ymd2ord _ _ _ hv]
+
+/-- **compiled backend** (truncating division + sign fix-up, Rust tables): identical result for every input -/
+theorem local_time_rs_eq_py (t off : Int) :
+    LocalTime.localTime true LocalTime.rsTbl t off = LocalTime.localTime false LocalTime.pyTbl t off :=
+  LocalTime.localTime_rs_eq t off
+
+/-! ### Date getters that are computed by pendulum itself -/
+
+/-- `week_of_month = ceil((day + first_of_month.isoweekday() - 1) / 7)` as integer arithmetic: the 1-based index of the
+    Monday-started calendar row that contains the day -/
+theorem week_of_month_rows (d wd1 : Int) (hd : 1 ≤ d) (hw : 1 ≤ wd1 ∧ wd1 ≤ 7) :
+    (d + wd1 - 1 + 6) / 7 = (d + wd1 - 2) / 7 + 1 := by omega
+
+/-- `quarter = ceil(month / 3)` as integer arithmetic -/
+theorem quarter_spec (m : Int) (hm : 1 ≤ m ∧ m ≤ 12) : (m + 2) / 3 = (m - 1) / 3 + 1 ∧ 1 ≤ (m + 2) / 3 ∧ (m + 2) / 3 ≤ 4 := by
+  omega
+
 /-! non-vacuity: the hypotheses are met by ordinary dates -/
+example : LocalTime.localTime false LocalTime.pyTbl 951782400 3600 = (2000, 2, 29, 1, 0, 0) := by decide +kernel
+example : LocalTime.localTime true LocalTime.rsTbl (-1) 0 = (1969, 12, 31, 23, 59, 59) := by decide +kernel
 example : (1 : Int) ≤ 2 ∧ (2 : Int) ≤ 12 := by omega
 example : Gen.week_day 2024 2 29 = 4 ∧ isoweekday 2024 2 29 = 4 := by decide
 example : Gen.is_long_year 2020 = true ∧ isoWeeksInYear 2020 = 53 := by decide
